@@ -31,6 +31,11 @@ ASSUMPTIONS = [
 ]
 
 LOCAL = '10.0.0.1'
+LOCAL6 = '2001:db8::ff'
+
+
+def local_of(nb) -> str:
+    return LOCAL6 if ':' in nb['peer_ip'] else LOCAL
 
 
 def counts(tier: str):
@@ -55,7 +60,7 @@ def sel_text(sel) -> str:
 def matches(d: dict, nb: dict) -> bool:
     if d['ip'] != '*' and d['ip'] != nb['peer_ip']:
         return False
-    vals = {'peer-as': str(nb['peer_as']), 'local-as': str(nb['local_as']), 'router-id': nb['router_id'], 'local-ip': LOCAL}
+    vals = {'peer-as': str(nb['peer_as']), 'local-as': str(nb['local_as']), 'router-id': nb['router_id'], 'local-ip': local_of(nb)}
     for k, v in d.get('terms', {}).items():
         if vals.get(k) != str(v):
             return False
@@ -95,15 +100,18 @@ def gen_selector(rng, nbrs):
 def generate(rng, tier: str, index: int) -> dict:
     nn = rng.randint(2, 4)
     nbrs = []
+    # address sets in which one address textually continues another (a selector must not confuse them)
+    addrs = rng.choice([None, None, ['2001:db8::1', '2001:db8::1:5', '2001:db8::2', '2001:db8::1:50'], ['10.0.0.2', '10.0.0.20', '10.0.0.22', '110.0.0.2']])
     for i in range(nn):
-        nbrs.append({'idx': i, 'peer_ip': RW.PEER_IPS[i] if i < 3 else '10.0.0.5', 'peer_as': 65100 + i, 'local_as': rng.choice([65001, 65011]), 'router_id': f'10.0.1.{i + 1}', 'addpath': False})
+        ip = addrs[i] if addrs else (RW.PEER_IPS[i] if i < 3 else '10.0.0.5')
+        nbrs.append({'idx': i, 'peer_ip': ip, 'peer_as': 65100 + i, 'local_as': rng.choice([65001, 65011]), 'router_id': f'10.0.1.{i + 1}', 'addpath': False})
     variants = RW.gen_variants(rng, 3)
     prefixes = rng.sample(RW.API_PREFIXES, 4)
     cmds = []
     ncmd = rng.randint(5, 60 if tier == 'thorough' else 30)
     for _ in range(ncmd):
         r = rng.random()
-        route = {'p': rng.choice(prefixes), 'pid': None, 'nh': rng.choice(['10.0.0.9', '10.0.0.77', 'self']), 'v': rng.randint(0, 2)}
+        route = {'p': rng.choice(prefixes), 'pid': None, 'nh': rng.choice(['10.0.0.9', '10.0.0.77'] + ([] if addrs and ':' in addrs[0] else ['self'])), 'v': rng.randint(0, 2)}
         if r < 0.35:
             cmds.append({'k': 'ann', 'sel': gen_selector(rng, nbrs), 'route': route})
         elif r < 0.5:
@@ -218,10 +226,10 @@ def execute(plan: dict) -> dict:
     speakers = []
     confs = []
     for nb in nbrs:
-        speakers.append(Speaker(w, f'p{nb["idx"]}', nb['peer_ip'], nb['peer_as'], nb['peer_ip'], LOCAL, hold=90, caps=speaker_caps({'asn': nb['peer_as']})))
+        speakers.append(Speaker(w, f'p{nb["idx"]}', nb['peer_ip'], nb['peer_as'], f'10.9.0.{nb["idx"] + 1}', local_of(nb), hold=90, caps=speaker_caps({'asn': nb['peer_as']})))
         confs.append(
             {
-                'peer_ip': nb['peer_ip'], 'local_ip': LOCAL, 'local_as': nb['local_as'], 'peer_as': nb['peer_as'], 'router_id': nb['router_id'], 'hold': 90,
+                'peer_ip': nb['peer_ip'], 'local_ip': local_of(nb), 'local_as': nb['local_as'], 'peer_as': nb['peer_as'], 'router_id': nb['router_id'], 'hold': 90,
                 'families': [(1, 1)], 'adj-rib-out': True, 'api': {'processes': ['h1']},
             }
         )  # fmt: skip
